@@ -5,7 +5,9 @@
 (* structured operands up to 2^512.                                           *)
 EXTENDS BigNat, TLC, FiniteSets
 
-SmallSet == (0..70) \cup ((B-3)..(B+3)) \cup ((2*B-3)..(2*B+3)) \cup {46340, 46341, 98303}
+CONSTANT QUICK      \* TRUE: reduced operand sets (seconds); FALSE: the full self-test (minutes)
+
+SmallSet == (IF QUICK THEN 0..12 ELSE 0..70) \cup ((B-3)..(B+3)) \cup ((2*B-3)..(2*B+3)) \cup {46340, 46341, 98303}
 
 SmallOK(x, y) ==
     LET a == OfInt(x)  b == OfInt(y) IN
@@ -16,8 +18,8 @@ SmallOK(x, y) ==
     /\ (y # 0 => DivMod(a, b) = <<OfInt(x \div y), OfInt(x % y)>>)
     /\ Cmp(a, b) = (IF x < y THEN -1 ELSE IF x > y THEN 1 ELSE 0)
 
-Ks == {1, 14, 15, 16, 29, 30, 31, 45, 63, 64, 65, 127, 128, 129, 255, 256, 300}
-Ts == {1, 9, 17, 18, 19, 36, 38, 39, 59, 77, 78}
+Ks == IF QUICK THEN {1, 15, 30, 64, 128, 256} ELSE {1, 14, 15, 16, 29, 30, 31, 45, 63, 64, 65, 127, 128, 129, 255, 256, 300}
+Ts == IF QUICK THEN {1, 18, 38, 77} ELSE {1, 9, 17, 18, 19, 36, 38, 39, 59, 77, 78}
 Big0 == {Pow2(k) : k \in Ks} \cup {Sub(Pow2(k), One) : k \in Ks} \cup {Add(Pow2(k), One) : k \in Ks}
         \cup {Pow10(t) : t \in Ts} \cup {Sub(Pow10(t), One) : t \in Ts}
         \cup {Zero, One, OfInt(32767), OfInt(32768), OfInt(12345678)}
@@ -45,5 +47,4 @@ Next == UNCHANGED st
 Inv  == /\ st = "small" => \A x \in SmallSet : \A y \in SmallSet : SmallOK(x, y)
         /\ st = "large" => \A a \in Big0 : \A b \in Big0 : LargeOK(a, b)
 Counts == <<Cardinality(SmallSet) * Cardinality(SmallSet), Cardinality(Big0) * Cardinality(Big0)>>
-ASSUME PrintT(<<"BIGNAT_SELFTEST_CASES", Counts>>)
 =============================================================================
